@@ -3,7 +3,7 @@
    SpecModel.public_str/base_str, Canon.canon (canonicalize_version with _TrimmedRelease).  Statements only. *)
 From Coq Require Import List Arith NArith Bool Lia.
 Import ListNotations.
-Require Import S1 VParse VComplete VTop VTop2 VDec Py VMeaning VCanon VCanon2 VCanon3 VCmp SpecModel SpecOps Order Canon VWf VKeyEq CanonLaws VInt.
+Require Import S1 VParse VComplete VTop VTop2 VDec Py VMeaning VCanon VCanon2 VCanon3 VCmp SpecModel SpecOps Order Canon VWf VKeyEq CanonLaws VInt VGnfParsed VObsModel VReading VNumDefined.
 Open Scope N_scope.
 
 (* 1. an accepted string is read as the spelling it is: the scanner returns a parse tree whose rendering is the input,
@@ -89,8 +89,94 @@ Theorem C02_canon_passthrough z s : Version s = None -> canon z s = s.
 Proof. intros E. unfold canon. now rewrite E. Qed.
 Print Assumptions C02_canon_passthrough.
 
+
+(* 7. the reading is unique.  `render` is not injective ("1.0a-1" is the rendering of two well-formed trees with different meanings), so
+      theorem 1 alone does not say WHICH tree is read.  The scanner returns the tree in greedy normal form (gnf: every component takes the
+      longest text the regex would give it, alternatives in the regex's order), and there is exactly one gnf tree per accepted string. *)
+Theorem C02_parsed_tree_is_gnf s sp : parse_spelling s = Some sp -> gnf sp = true.
+Proof. exact (parse_spelling_gnf s sp). Qed.
+Print Assumptions C02_parsed_tree_is_gnf.
+Theorem C02_reading_unique s v : Version s = Some v ->
+  exists sp, gnf sp = true /\ render sp = s /\ wf_spelling sp /\ v = meaning sp /\
+             forall sp', gnf sp' = true -> render sp' = s -> sp' = sp.
+Proof. exact (reading_unique s v). Qed.
+Print Assumptions C02_reading_unique.
+
+(* 8. the local label: every segment is read as an integer when it is all digits (leading zeros irrelevant, theorem 3c) and as its lower-cased
+      text otherwise; the separators '.', '-', '_' between segments are not part of the reading; str() puts '.' between the segments *)
+Theorem C02_local_reading sp h t : wf_spelling sp -> sloc sp = Some (h, t) ->
+  exists segs, Py.local (meaning sp) = Some segs /\
+    Forall2 (fun raw x => if forallb is_digit raw then x = inl (num raw) else x = inr (map lc raw)) (h :: map snd t) segs.
+Proof. exact (local_reading sp h t). Qed.
+Print Assumptions C02_local_reading.
+Theorem C02_local_absent sp : sloc sp = None -> Py.local (meaning sp) = None.
+Proof. exact (local_absent sp). Qed.
+Print Assumptions C02_local_absent.
+
+(* 9. major / minor / micro are the first three release components (0 where the release is shorter); is_devrelease follows the dev part.
+      rel_nth / is_devrelease are the functions the `v.parse` observation runs (Ver/VObsModel.v) *)
+Theorem C02_major_minor_micro sp :
+  rel_nth 0 (meaning sp) = num (rel0 sp) /\
+  rel_nth 1 (meaning sp) = match rels sp with d :: _ => num d | [] => 0 end /\
+  rel_nth 2 (meaning sp) = match rels sp with _ :: d :: _ => num d | _ => 0 end /\
+  (forall k v, rel_nth k v = if (k <? length (release v))%nat then nth k (release v) 0 else 0).
+Proof. split; [exact (major_reading sp)|]. split; [exact (minor_reading sp)|]. split; [exact (micro_reading sp) | exact rel_nth_is_release]. Qed.
+Print Assumptions C02_major_minor_micro.
+Theorem C02_is_devrelease sp : is_devrelease (meaning sp) = true <-> sdev sp <> None.
+Proof. exact (devrelease_reading sp). Qed.
+Print Assumptions C02_is_devrelease.
+
+(* 10. the canonical-string invariant on the real `==` (Python's rich comparison of the two keys, as run by `v.cmp`), and hash *)
+Theorem C02_canon_complete_eq a b x y : Version a = Some x -> Version b = Some y ->
+  (canon true a = canon true b <-> rich Eq_ (key x) (key y) = Some true).
+Proof.
+  intros Ha Hb. rewrite (C01_rich_is_pep440 x y (wf_c01 _ (Version_wf _ _ Ha)) (wf_c01 _ (Version_wf _ _ Hb)) Eq_).
+  rewrite (canon_complete a b x y Ha Hb). destruct (pep440_cmp x y); cbn; split; congruence.
+Qed.
+Print Assumptions C02_canon_complete_eq.
+Theorem C02_canon_equal_same_key a b x y : Version a = Some x -> Version b = Some y -> canon true a = canon true b -> key x = key y.
+Proof.
+  intros Ha Hb K. apply key_of_equal; [exact (Version_wf _ _ Ha) | exact (Version_wf _ _ Hb) | exact (proj1 (canon_complete a b x y Ha Hb) K)].
+Qed.
+Print Assumptions C02_canon_equal_same_key.
+(* canonicalize_version re-parses str(version) through _TrimmedRelease (utils.py): the model's shortcut vstr (trim v) is that reparse *)
+Theorem C02_canon_is_trimmed_reparse s v : Version s = Some v ->
+  canon true s = vstr (trim v) /\ canon true (vstr v) = vstr (trim v) /\ Version (vstr (trim v)) = Some (trim v).
+Proof.
+  intros E. pose proof (Version_wf _ _ E) as W. unfold canon. rewrite E, (Version_vstr v W).
+  split; [reflexivity|]. split; [reflexivity|]. apply Version_vstr, wf_trim, W.
+Qed.
+Print Assumptions C02_canon_is_trimmed_reparse.
+
+(* 11. no totalised default is ever read: on a well-formed spelling (everything the scanner returns, theorem 1) int() is defined on every digit group
+        whose value becomes a component - VMeaning.num's 0 on a non-number is unreachable; the implicit 0 of an absent number is the only default *)
+Theorem C02_numbers_defined sp : wf_spelling sp ->
+  (forall e, ep sp = Some e -> undec e = Some (num e)) /\ undec (rel0 sp) = Some (num (rel0 sp)) /\
+  Forall (fun d => undec d = Some (num d)) (rels sp) /\
+  (forall l, spre sp = Some l -> l_num l <> [] -> undec (l_num l) = Some (num (l_num l))) /\
+  (forall d, spost sp = Some (PostImplicit d) -> undec d = Some (num d)) /\
+  (forall l, spost sp = Some (PostWord l) -> l_num l <> [] -> undec (l_num l) = Some (num (l_num l))) /\
+  (forall l, sdev sp = Some l -> l_num l <> [] -> undec (l_num l) = Some (num (l_num l))).
+Proof. exact (numbers_defined sp). Qed.
+Print Assumptions C02_numbers_defined.
+Theorem C02_local_numbers_defined sp h t : wf_spelling sp -> sloc sp = Some (h, t) ->
+  Forall (fun raw => forallb is_digit raw = true -> undec raw = Some (num raw)) (h :: map snd t).
+Proof. exact (local_numbers_defined sp h t). Qed.
+Print Assumptions C02_local_numbers_defined.
+
 (* non-vacuity: " V1!02.0-PREVIEW_3.r.dev+Ab-01\n" is accepted and read as 1!2.0rc3.post0.dev0+ab.1 *)
 Example C02_nonvacuous :
   option_map vstr (Version [32;86;49;33;48;50;46;48;45;80;82;69;86;73;69;87;95;51;46;114;46;100;101;118;43;65;98;45;48;49;10])
   = Some [49;33;50;46;48;114;99;51;46;112;111;115;116;48;46;100;101;118;48;43;97;98;46;49].
+Proof. vm_compute. reflexivity. Qed.
+(* "1.0a-1" is read as pre a1 (not as pre a0 + implicit post 1), and its tree is gnf; the local label "+Ab-01_x" is read as ab.1.x;
+   micro of "1.2" is 0 *)
+Definition reading_check : bool :=
+  match parse_spelling [49;46;48;97;45;49], Version [49;46;48;97;45;49], Version [49;46;50;43;65;98;45;48;49;95;120] with
+  | Some sp, Some v, Some w =>
+      gnf sp && VMeaning.str_eqb (vstr v) [49;46;48;97;49] && negb (is_postrelease v) &&
+      VMeaning.str_eqb (vstr w) [49;46;50;43;97;98;46;49;46;120] &&
+      (rel_nth 1 w =? 2) && (rel_nth 2 w =? 0) && negb (is_devrelease w)
+  | _, _, _ => false end.
+Example C02_reading_nonvacuous : reading_check = true.
 Proof. vm_compute. reflexivity. Qed.
